@@ -668,6 +668,16 @@ impl Network {
                             continue;
                         };
 
+                        // A holder can answer with any validly signed register:
+                        // only the ones that live at the key being read are versions of it.
+                        if NetworkAddress::from_register_address(*register.address()).to_record_key() != *key {
+                            warn!(
+                                "Rejecting Register for {pretty_key} that belongs to another address {} during split record error",
+                                register.address()
+                            );
+                            continue;
+                        }
+
                         match register.verify() {
                             Ok(_) => {
                                 collected_registers.push(register);
